@@ -94,7 +94,8 @@ impl Decoder for ScriptedDecoder {
 			self.stats.failures_returned.fetch_add(1, Ordering::SeqCst);
 			return Err(DecErr::ReadPastEnd);
 		}
-		let size = self.packets[self.pkt_i % self.packets.len()].max(1);
+		// a packet size of 0 is an empty chunk (legitimate: symphonia's Vorbis decoder returns one for the first packet)
+		let size = if self.packets.iter().all(|p| *p == 0) { 1 } else { self.packets[self.pkt_i % self.packets.len()] };
 		self.pkt_i += 1;
 		let end = (self.pos + size).min(self.frames.len());
 		let out = self.frames[self.pos..end].to_vec();
